@@ -463,8 +463,8 @@ class Matcher:
             self.nstmt += 1
             return
         if ti[0] == 'if':
-            _, c, then, else_, _ = ti
-            _, sc, sthen, selse, _ = ts
+            _, c, then, else_ = ti[:4]
+            _, sc, sthen, selse = ts[:4]
             c = c.subs(self.N)
             sc = sc.subs(lambda e: self.N(sp.sympify(e).subs(sub)))
             if same_cmp(a, c, sc, facts):
